@@ -1,5 +1,6 @@
 import PvModel.Props.C02
 import PvModel.Props.C02Program
+import PvModel.Props.C02Decide
 #print axioms Pv.C02_invariant_ok
 #print axioms Pv.C02_invariant_fail
 #print axioms Pv.C02_step_ok
@@ -8,3 +9,6 @@ import PvModel.Props.C02Program
 #print axioms Pv.C02_no_panic
 #print axioms Pv.C02_program_exact
 #print axioms Pv.C02_program_order_free
+#print axioms Pv.C02_normal_form
+#print axioms Pv.C02_satisfiable
+#print axioms Pv.C02_decides
